@@ -64,7 +64,12 @@ pub fn make_scenario(rng : &mut Rng, prop : &str, thorough : bool) -> Scenario
         0 => ("fresh", vec![]),
         1 => ("built", vec![HOp::Build(None)]),
         2 => ("built+cleaned", vec![HOp::Build(None), HOp::Clean(goal(rng))]),
-        3 => ("built+leaf-edited", vec![HOp::Build(None), HOp::EditLeaf(some_leaf(rng))]),
+        3 =>
+        {
+            let mut ops = vec![HOp::Build(None), HOp::EditLeaf(some_leaf(rng))];
+            if rng.chance(1, 2) { ops.push(HOp::EditLeaf(some_leaf(rng))); }
+            ("built+leaf-edited", ops)
+        },
         4 => ("built+tampered", vec![HOp::Build(None), HOp::Tamper(some_target(rng))]),
         5 => { let l = some_leaf(rng); ("built+edited+built+cache-entry-deleted+reverted", vec![HOp::Build(None), HOp::EditLeaf(l.clone()), HOp::Build(None), HOp::DeleteCacheEntry, HOp::RevertLeaf(l)]) },
         6 => { let l = some_leaf(rng); ("built+edited+built+reverted", vec![HOp::Build(None), HOp::EditLeaf(l.clone()), HOp::Build(None), HOp::RevertLeaf(l)]) },
